@@ -14,7 +14,7 @@ RULE = ("Model-based history generation: Hypothesis draws a rank-planted problem
         "Non-trivial = history with >=3 kinds of query and one of {>=4 distinct q_xx keys (cache eviction), min_x change after a "
         "cofactor query, reset after queries, q0_xx interleaved with q_xx on a singular system, algorithm switch}; distinct by sha1. "
         "Network part: histories over a LocalNetwork object (see 'net').")
-ASSUMPTIONS = ["min_x(S') is only issued with subsets that numpy confirms to resolve the defect (non-resolving subsets belong to C02/C20)",
+ASSUMPTIONS = ["min_x(S') is issued with subsets that numpy confirms to resolve the defect, or with fewer indexes than the defect (certainly insufficient: the answer is an exception, the same for a fresh object); other non-resolving subsets belong to C02/C20",
                "q_bx is never called (AdjEnvelope documents it as not implemented)"]
 REQUIRED_CLASSES = ["kind=adj", "kind=raw", "singular", "evict", "minx_after_q", "reset_after_q", "net.refine", "net.alg_switch", "net.update", "net.free", "svdclass.singular", "svdclass.subset_then_all"]
 
@@ -41,7 +41,7 @@ def history(draw):
         elif op == "lindep":
             ops.append([op, draw(st.integers(1, n))])
         elif op == "minx":
-            k = draw(st.integers(max(1, case["d"]), n))
+            k = draw(st.integers(1, n))       # fewer indexes than the defect: a subset that cannot resolve it
             ops.append([op] + sorted(i + 1 for i in draw(st.permutations(list(range(n))))[:k]))
         elif op == "alg":
             ops.append([op, draw(st.sampled_from(ALGS))])
@@ -128,8 +128,12 @@ def oracle(h, stats):
             Snew = op[1:]
             Rn = ref_linalg.solve(A, case["b"], C, [i - 1 for i in Snew])
             if Rn is None or not Rn.resolving or Rn.sg_ratio < 0.05:
-                skipped += 1
-                continue
+                # a subset with fewer indexes than the defect is certainly insufficient: every solver must refuse it (and
+                # recover when a good one follows); other non-resolving subsets are numerically ambiguous and skipped
+                if not (kind == "raw" and R0.d > 0 and len(Snew) < R0.d):
+                    skipped += 1
+                    continue
+                stats.label("minx_insufficient")
             S = list(Snew)
             script.append("0 minx %d %s" % (len(S), " ".join(map(str, S))))
             idx += 1
